@@ -53,6 +53,9 @@ struct Spec {
 	disconnect_at: Vec<Option<u64>>,
 	stop_at: Option<u64>,
 	delays: bool,
+	/// subscription ids (300 characters) that do not fit into max_response_body_size (200): the subscribe call is answered
+	/// with the "response too big" error, so no subscription may come into being
+	long_ids: bool,
 }
 
 #[derive(Debug, Clone)]
@@ -126,6 +129,7 @@ fn gen_spec(seed: u64) -> Spec {
 		stop_at: if r.chance(1, 6) { Some(r.below(horizon)) } else { None },
 		subs,
 		delays: r.chance(2, 3),
+		long_ids: r.chance(1, 10),
 	}
 }
 
@@ -135,7 +139,11 @@ async fn run_spec(spec: &Spec, real_time: bool) -> Out {
 		install_thread_delay_hook(spec.seed ^ 0x77, 70, 4);
 	}
 	let reg = Registry::default();
-	let cfg = ServerConfig::builder().set_message_buffer_capacity(spec.buffer).max_subscriptions_per_connection(64).max_connections(100).build();
+	let mut cfg = ServerConfig::builder().set_message_buffer_capacity(spec.buffer).max_subscriptions_per_connection(64).max_connections(100);
+	if spec.long_ids {
+		cfg = cfg.set_id_provider(jsonrpsee_server::RandomStringIdProvider::new(300)).max_response_body_size(200);
+	}
+	let cfg = cfg.build();
 	let srv = MemServer::new(cfg, subctl::module(reg.clone()));
 
 	// connections: a reader task per connection records every frame with its ticket
@@ -524,6 +532,9 @@ fn record(spec: &Spec, o: Out, ev: &mut Evidence, violations: &mut Vec<Violation
 	ev.count("subscriptions_with_a_close_instant", o.closes as u64);
 	ev.count("sends_started_after_a_close", o.sends_after_close as u64);
 	ev.count("library_points_reached", o.points as u64);
+	if spec.long_ids {
+		ev.count("histories_with_subscription_ids_above_the_response_limit", 1);
+	}
 	if o.notifications > 0 {
 		ev.nontrivial(&(spec.seed, spec.buffer));
 	}
@@ -620,7 +631,8 @@ fn main() {
 		violations.extend(v);
 	}
 	for p in take_panics() {
-		if p.in_library {
+		// accept() panics by design when the response carrying the subscription id exceeds max_response_body_size
+		if p.in_library && !p.message.contains("The subscription response was too big") {
 			violations.push(Violation::new(
 				format!("library-panic/{}", p.location.rsplit('/').next().unwrap_or("").split(':').next().unwrap_or("")),
 				p.message.clone(),
